@@ -22,14 +22,18 @@ Init == comb = << >> /\ hist = << >>
 Add(n) == /\ Len(hist) < MaxAdds
           /\ comb' = AddTo(comb, Member(n))
           /\ hist' = Append(hist, n)
-Next == \E n \in Names : Add(n)
+\* a registry may be looked at between two additions (len / iteration / lookup): nothing changes
+Observe == /\ Len(hist) < MaxAdds /\ hist # << >> /\ hist[Len(hist)] # "?"
+           /\ hist' = Append(hist, "?") /\ UNCHANGED comb
+Next == (\E n \in Names : Add(n)) \/ Observe
 
 C20_KeysOnce == \A i, j \in 1..Len(comb) : i # j => comb[i].id # comb[j].id
-C20_UnionOfMembers == Ids(comb) = UNION {Ids(Member(hist[k])) : k \in 1..Len(hist)}
+Adds == {k \in 1..Len(hist) : hist[k] # "?"}
+C20_UnionOfMembers == Ids(comb) = UNION {Ids(Member(hist[k])) : k \in Adds}
 C20_FirstWins == \A i \in 1..Len(comb) :
-   LET first == CHOOSE k \in 1..Len(hist) : comb[i].id \in Ids(Member(hist[k])) /\ \A k2 \in 1..(k - 1) : comb[i].id \notin Ids(Member(hist[k2]))
+   LET first == CHOOSE k \in Adds : comb[i].id \in Ids(Member(hist[k])) /\ \A k2 \in Adds : k2 < k => comb[i].id \notin Ids(Member(hist[k2]))
        m == Member(hist[first])
    IN \E x \in 1..Len(m) : m[x].id = comb[i].id /\ m[x].tag = comb[i].tag
-C20_AddingTwiceChangesNothing == \A k \in 1..Len(hist) : AddTo(comb, Member(hist[k])) = comb
+C20_AddingTwiceChangesNothing == \A k \in Adds : AddTo(comb, Member(hist[k])) = comb
 ASSUME PrintT(<<"WORLD", [n \in Names |-> Member(n)]>>)
 =============================================================================
